@@ -580,6 +580,17 @@ pub fn judge_c06_one(bytes: &Arc<Vec<u8>>, l: usize, sched: &Schedule, whole: &O
     if &out != whole {
         return Err(Fail::new("C06/fragmentation-changes-result", format!("{}: result differs from the whole-buffer result: {} vs {}", ctxs("blocking"), out.short(), whole.short())));
     }
+    // ---- nothing more is read when the result is dropped unread
+    let (src, c2) = Scripted::shared(bytes.clone(), sched.clone(), None);
+    match catch(move || IppParser::new(IppReader::new(src)).parse().map(drop)) {
+        Ok(Ok(())) => {
+            if c2.handed() != l {
+                return Err(Fail::new("C06/read-on-drop", format!("{}: {} bytes had been taken from the source after the parsed message was dropped unread, header+attributes are {} bytes", ctxs("blocking"), c2.handed(), l)));
+            }
+        }
+        Ok(Err(_)) => {}
+        Err(pn) => return Err(Fail::new(format!("C06/{}", panic_sig(&pn)), format!("{}: parse + drop panicked: {pn}", ctxs("blocking")))),
+    }
     // ---- async parse()
     let (out, _c, after) = parse_async_scripted(bytes.clone(), sched.clone(), None);
     if let Outcome::Exec(e) = &out {
